@@ -208,7 +208,7 @@ pub fn cblocks(blocks: &[SBlock], o: &CanonOpts) -> Vec<CBlock> {
 
 pub fn canon(s: &Scan, o: &CanonOpts) -> Canon {
     Canon {
-        metadata: s.metadata.clone(),
+        metadata: s.metadata.as_ref().map(|m| m.replace("\r\n", "\n")),
         blocks: cblocks(&s.blocks, o),
     }
 }
